@@ -133,10 +133,58 @@ class _LoopToComp(ast.NodeTransformer):
         return node
 
 
+class _InlineTemps(ast.NodeTransformer):
+    """`t = E` directly followed by `return t` (or `x = t`), t bound once and read once in the function: -> `return E` (`x = E`).
+    The temporary carries no information; with it gone `return f(x)` and `r = f(x); return r` are one form."""
+
+    def visit_FunctionDef(self, fn):
+        self.generic_visit(fn)
+        loads, stores = {}, {}
+        for n in ast.walk(fn):
+            if isinstance(n, ast.Name):
+                d = loads if isinstance(n.ctx, ast.Load) else stores
+                d[n.id] = d.get(n.id, 0) + 1
+        params = {a.arg for a in ast.walk(fn.args) if isinstance(a, ast.arg)}
+
+        def rewrite(body):
+            out, i = [], 0
+            while i < len(body):
+                a = body[i]
+                b = body[i + 1] if i + 1 < len(body) else None
+                if isinstance(a, ast.Assign) and len(a.targets) == 1 and isinstance(a.targets[0], ast.Name) and b is not None:
+                    t = a.targets[0].id
+                    use = b.value if isinstance(b, (ast.Return, ast.Assign)) else None
+                    if isinstance(use, ast.Name) and use.id == t and loads.get(t, 0) == 1 and stores.get(t, 0) == 1 and t not in params and \
+                            not (isinstance(b, ast.Assign) and any(isinstance(x, ast.Name) and x.id == t for tg in b.targets for x in ast.walk(tg))):
+                        b.value = a.value
+                        out.append(b)
+                        i += 2
+                        continue
+                out.append(a)
+                i += 1
+            return out
+
+        def rec(node):
+            for fld in ('body', 'orelse', 'finalbody'):
+                blk = getattr(node, fld, None)
+                if isinstance(blk, list) and blk and isinstance(blk[0], ast.stmt):
+                    for st in blk:
+                        if not isinstance(st, (ast.FunctionDef, ast.AsyncFunctionDef, ast.ClassDef)):
+                            rec(st)
+                    setattr(node, fld, rewrite(blk))
+            for h in getattr(node, 'handlers', []) or []:
+                rec(h)
+        rec(fn)
+        return fn
+
+    visit_AsyncFunctionDef = visit_FunctionDef
+
+
 def normalise_tree(tree):
     """syntactic normal forms applied to every module at parse time"""
     tree = _LowerIfExp().visit(tree)
     tree = _LoopToComp().visit(tree)
+    tree = _InlineTemps().visit(tree)
     return ast.fix_missing_locations(tree)
 
 
@@ -145,6 +193,9 @@ class Module:
         self.rel, self.src = rel, src
         self.tree = ast.parse(src, filename=rel)
         self.tree = normalise_tree(self.tree)
+        # locals that were merely renamed get their reference names back (sa/localnames.py)
+        from .localnames import restore_module
+        self.renamed_locals = restore_module(rel, self.tree, src)
         self.tree._parent = None
         for node in ast.walk(self.tree):
             for child in ast.iter_child_nodes(node):
